@@ -137,6 +137,12 @@ def holdsOutcome (H : Str → Str) (side : Side) (ex : List Str) : Input → Out
   | .notJson e, .empty => side != .raw && e
   | .notJson _, _ => false
 
+/-- The property on a whole transaction exported by the flow-mode collector: each body is judged
+    against the exclusions of ITS OWN side only (a request-body exclusion says nothing about the
+    response body and vice versa). -/
+def holdsTxn (H : Str → Str) (ex : List Str) (reqBody respBody : Input) (o : Outcome × Outcome) : Bool :=
+  holdsOutcome H .req ex reqBody o.1 && holdsOutcome H .resp ex respBody o.2
+
 /-- Classifier of a failing case: no finding of C16 is open (F16a, F16b repaired by fixes/F16a.patch). -/
 def finding (_side : Side) (_ex : List Str) (_d : Json) : Option String := none
 
